@@ -28,7 +28,8 @@ RULE = (
     "contents A/B (B differs in latencies), also while a process that already loaded it is alive (in-process lookup after "
     "the edit); cut a cache file at an offset class {0 bytes, header only (1-16), "
     "mid-stream, last byte missing} or overwrite it with garbage; replace it by a cache of another format version (older or newer) holding "
-    "different data; N in {2,4,8} processes cold-starting at once; one "
+    "different data; a benchmark import (which extends the model in memory) as the process that "
+    "fills the cold cache; N in {2,4,8} processes cold-starting at once; one "
     "cold start in which a simulated competitor creates ~/.osaca/cache between the existence test and the mkdir and "
     "puts its cache file in place just before the rename (harness-owned interleaving: os.mkdir/os.replace wrapped "
     "in the child). "
@@ -465,6 +466,24 @@ class Interp:
             sb.variant[arch] = after
             f["edit_after_cache"] = True
             f["edited_during_load"] = f.get("edited_during_load", 0) + 1
+        elif op == "import_cold":
+            # a benchmark import (which extends the model in memory and prints it) on a cold cache: the model FILE is
+            # unchanged, so every later analysis has to report what a cold run reports
+            arch = step["arch"]
+            if not sb.readonly:
+                for x in sb.companion(arch):
+                    os.remove(x)
+            for x in sb.homefiles(arch):
+                os.remove(x)
+            form = "addq-i_r" if env.isa_of(arch) == "x86" else "fmul-vd_vd_vd"
+            bench = ("%s-TP: 1.001 (clock cycles)    [DEBUG - result: 0.007813]\n"
+                     "%s-LT:    9.013 (clock cycles)    [DEBUG - result: 1.000000]\n" % (form, form))
+            rc, out, err = cli.run_subprocess(["--arch", arch, "--import", "ibench"], code=bench, home=sb.home)
+            if rc != 0:
+                raise Violation("import-fails:" + self.describe(arch), "benchmark import on a cold cache fails",
+                                (err or out)[-600:], "exit 0")
+            f["imports"] = f.get("imports", 0) + 1
+            f["written"].add((arch, sb.current_hash(arch)))
         elif op == "foreign_version":
             # the cache entry for the current content is replaced by one written in another cache format version
             # (older or newer) whose data differ: it has to be ignored, whatever its version number
@@ -682,6 +701,10 @@ def make_machine(stats, failures_out):
         def edit_during_load(self, arch, k):
             self.step({"op": "edit_during_load", "arch": arch, "kernel": kernels_for(arch)[k]})
 
+        @rule(arch=st.sampled_from(ARCHS))
+        def import_cold(self, arch):
+            self.step({"op": "import_cold", "arch": arch})
+
         @rule(arch=st.sampled_from(ARCHS), where=st.sampled_from(["companion", "home"]), delta=st.sampled_from([1, -1, 7]))
         def foreign_version(self, arch, where, delta):
             self.step({"op": "foreign_version", "arch": arch, "where": where, "delta": delta})
@@ -759,6 +782,25 @@ def fault_enumeration(archs, stats, failures):
                 stats.evaluations += 1
                 stats.nontrivial.add(core.case_hash(it.history[:upto]))
             stats.classes["fault:edit-in-living-process"] += 1
+        except Violation as v:
+            stats.evaluations += 1
+            if v.bucket not in failures:
+                failures[v.bucket] = failure_record(ID, {"history": list(it.history)}, v)
+        finally:
+            it.close()
+    # a benchmark import is the first process to load the model (cold cache), analyses follow
+    for arch in archs:
+        it = Interp()
+        hist = [{"op": "import_cold", "arch": arch},
+                {"op": "run", "arch": arch, "kernel": kernels_for(arch)[0], "fixed": False},
+                {"op": "run", "arch": arch, "kernel": kernels_for(arch)[1], "fixed": True}]
+        try:
+            for s_ in hist:
+                it.do(s_)
+            for upto in it.facts["checked"]:
+                stats.evaluations += 1
+                stats.nontrivial.add(core.case_hash(it.history[:upto]))
+            stats.classes["fault:import-on-cold-cache-then-analyses"] += 1
         except Violation as v:
             stats.evaluations += 1
             if v.bucket not in failures:
